@@ -681,7 +681,7 @@ func c14CheckAnnotation(t c14Term, rest string, faces []int, val int) string {
 func init() {
 	harn.Register(&harn.Check{
 		ID:   "C14",
-		Rule: "each case is one expression of <= 3 terms (int literals, XdY with keep/drop/min, advantage, Fate, CoC, WoD, Double Cross, nested and chained dice, int variables incl. a multi-byte name, a computed dice variable) joined by + - * with optional parentheses / unary minus, printed in 5 spacing variants incl. line breaks; for it EVERY sequence of die faces (first 6 dice, thorough 10; beyond: face 1; a D100 takes 8 representative faces) is enumerated through VerifRoll. Oracle per execution: the text with annotations deleted equals the source with each roll replaced by the value the independent rules give for the faces drawn, and evaluates (own evaluator) to the result; one annotation per non-literal term, starting with the term's source, listing exactly the faces drawn with the right total; GetDetailText twice gives the same string and leaves result, variables, generator state and draw count unchanged; the same source evaluated twice on one VM with different dice shows the text of the second evaluation. Distinct by source text; all cases roll or load.",
+		Rule: "each case is one expression of <= 3 terms (int literals, XdY with keep/drop/min, advantage, Fate, CoC, WoD, Double Cross, nested and chained dice, int variables incl. a multi-byte name, a computed dice variable) joined by + - * with optional parentheses / unary minus, printed in 5 spacing variants incl. line breaks; for it EVERY sequence of die faces (first 6 dice, thorough 10; beyond: face 1; a D100 takes 8 representative faces) is enumerated through VerifRoll. Oracle per execution: the text with annotations deleted equals the source with each roll replaced by the value the independent rules give for the faces drawn, and evaluates (own evaluator) to the result; one annotation per non-literal term, starting with the term's source, listing exactly the faces drawn with the right total; GetDetailText twice gives the same string and leaves result, variables, generator state and draw count unchanged; texts of even length (every expression has spacing variants of both parities) run with detail rewriters installed that return their input; the same source evaluated twice on one VM with different dice shows the text of the second evaluation. Distinct by source text; all cases roll or load.",
 		Enumerate: c14Enumerate,
 		Run:       c14Run,
 		Budget:    map[string]time.Duration{"quick": 400 * time.Second, "thorough": 40 * time.Minute},
